@@ -4,6 +4,7 @@
 package main
 
 import (
+	"path/filepath"
 	"encoding/json"
 	"flag"
 	"fmt"
@@ -42,6 +43,7 @@ func main() {
 	replay := flag.String("replay", "", "print a stored violation")
 	list := flag.Bool("list", false, "list obligations")
 	seeds := flag.String("seeds", "/verif/seeded", "directory of seeded faults used as positive controls in the thorough tier")
+	refactors := flag.String("refactors", "/verif/refactors", "directory of behaviour-preserving refactorings used as negative controls in the thorough tier")
 	symtabOut := flag.String("write-symtab", "", "write the reference symbol table of -repo to this file and exit")
 	flag.Parse()
 	if *symtabOut != "" {
@@ -49,6 +51,8 @@ func main() {
 			fmt.Println(err)
 			os.Exit(2)
 		}
+		// the digest of the tree the table (and the stored controls) belong to
+		os.WriteFile(filepath.Join(filepath.Dir(*symtabOut), "refdigest.txt"), []byte(treeDigest(*repo)+"\n"), 0o644)
 		os.Exit(0)
 	}
 
@@ -164,8 +168,9 @@ func main() {
 				}
 			}
 		}
-		missedControls := 0
-		if *tier == "thorough" && os.Getenv("VERIF_NO_CONTROLS") == "" {
+		missedControls, falseAlarms := 0, 0
+		runCtl := *tier == "thorough" && os.Getenv("VERIF_NO_CONTROLS") == ""
+		if runCtl {
 			lines, applied, missed := runControls(id, *repo, *knownPath, *seeds)
 			res.selftests = append(res.selftests, lines...)
 			res.stats["controls_applied"] = applied
@@ -175,15 +180,54 @@ func main() {
 				fmt.Println("CONTROL " + l)
 			}
 		}
+		if runCtl && !hasUnlisted(id, res, known) {
+			// negative controls only make sense on a tree the rules accept
+			lines, applied, alarms := runNegativeControls(id, *repo, *knownPath, *refactors)
+			falseAlarms = alarms
+			res.selftests = append(res.selftests, lines...)
+			res.stats["refactorings_applied"] = applied
+			res.stats["refactorings_reported"] = alarms
+			for _, l := range lines {
+				fmt.Println("CONTROL " + l)
+			}
+		}
 		code := finish(id, *tier, spec.level, spec.explanation, seed, res, known, *out, start, cmdline)
+		strict := isReferenceTree(*repo) || os.Getenv("VERIF_STRICT_CONTROLS") != ""
 		if code == 0 && missedControls > 0 {
 			// not a violation of the property: the check itself has lost sensitivity
 			fmt.Printf("CONTROL-MISSED property=%s: %d seeded fault(s) that apply to this tree are no longer reported\n", id, missedControls)
-			code = 2
+			if strict {
+				code = 2
+			}
+		}
+		if code == 0 && falseAlarms > 0 {
+			fmt.Printf("CONTROL-FALSE-ALARM property=%s: %d behaviour-preserving refactoring(s) are reported as violations\n", id, falseAlarms)
+			if strict {
+				code = 2
+			}
 		}
 		if code > exit {
 			exit = code
 		}
 	}
 	os.Exit(exit)
+}
+
+// hasUnlisted: is there an obligation that is not discharged and not a known finding?
+func hasUnlisted(prop string, r *runResult, known []knownFinding) bool {
+	for _, o := range r.obs {
+		if o.status == Discharged {
+			continue
+		}
+		matched := false
+		for _, k := range known {
+			if k.Prop == prop && prop+"."+k.Rule == o.Rule && k.Key == o.Key {
+				matched = true
+			}
+		}
+		if !matched {
+			return true
+		}
+	}
+	return false
 }
